@@ -54,22 +54,24 @@ mod set_reach__init;
 mod cp__pari;
 mod lex_lat__pari;
 mod lat_multi_improve__par;
-mod count_paths__mrt;
-mod count_paths__srcpar;
-mod neg_basic__src1;
-mod neg_basic__ren;
-mod agg_depth__par;
+mod count_paths__topar;
+mod count_paths__init;
+mod neg_basic__run;
+mod neg_basic__runpar;
+mod agg_minmaxsum__ser;
+mod agg_lattice__ser;
 mod neg_rec_after__ser;
 mod agg_empty__ser;
-mod disj__gen;
-mod disj__perm1;
-mod disj_nested__pari;
-mod rep_expr__ser;
-mod multi_head_disj__exp;
-mod mac_basic__par;
-mod mac_basic__redecl;
-mod mac_capture__pari;
-mod mac_disj__ser;
+mod disj__to;
+mod disj__redecl;
+mod disj__exp;
+mod pat_args__par;
+mod rep_expr__exppar;
+mod neg_in_disj__pari;
+mod mac_basic__run;
+mod mac_basic__runpar;
+mod mac_capture__exppar;
+mod mac_disj__pari;
 
 fn lookup(name: &str) -> fn() -> Box<dyn Driven> {
    match name {
@@ -119,22 +121,24 @@ fn lookup(name: &str) -> fn() -> Box<dyn Driven> {
       "cp__pari" => cp__pari::make,
       "lex_lat__pari" => lex_lat__pari::make,
       "lat_multi_improve__par" => lat_multi_improve__par::make,
-      "count_paths__mrt" => count_paths__mrt::make,
-      "count_paths__srcpar" => count_paths__srcpar::make,
-      "neg_basic__src1" => neg_basic__src1::make,
-      "neg_basic__ren" => neg_basic__ren::make,
-      "agg_depth__par" => agg_depth__par::make,
+      "count_paths__topar" => count_paths__topar::make,
+      "count_paths__init" => count_paths__init::make,
+      "neg_basic__run" => neg_basic__run::make,
+      "neg_basic__runpar" => neg_basic__runpar::make,
+      "agg_minmaxsum__ser" => agg_minmaxsum__ser::make,
+      "agg_lattice__ser" => agg_lattice__ser::make,
       "neg_rec_after__ser" => neg_rec_after__ser::make,
       "agg_empty__ser" => agg_empty__ser::make,
-      "disj__gen" => disj__gen::make,
-      "disj__perm1" => disj__perm1::make,
-      "disj_nested__pari" => disj_nested__pari::make,
-      "rep_expr__ser" => rep_expr__ser::make,
-      "multi_head_disj__exp" => multi_head_disj__exp::make,
-      "mac_basic__par" => mac_basic__par::make,
-      "mac_basic__redecl" => mac_basic__redecl::make,
-      "mac_capture__pari" => mac_capture__pari::make,
-      "mac_disj__ser" => mac_disj__ser::make,
+      "disj__to" => disj__to::make,
+      "disj__redecl" => disj__redecl::make,
+      "disj__exp" => disj__exp::make,
+      "pat_args__par" => pat_args__par::make,
+      "rep_expr__exppar" => rep_expr__exppar::make,
+      "neg_in_disj__pari" => neg_in_disj__pari::make,
+      "mac_basic__run" => mac_basic__run::make,
+      "mac_basic__runpar" => mac_basic__runpar::make,
+      "mac_capture__exppar" => mac_capture__exppar::make,
+      "mac_disj__pari" => mac_disj__pari::make,
       _ => panic!("no such program variant in this shard: {}", name),
    }
 }
